@@ -142,6 +142,30 @@ def run(ctx):
                                   "args": [k, v, et.name], "python": o if o != "ok" else getattr(r, "__name__", str(r))})
                 lines.append(f"idx_payload {k} {v} {et.name}")
                 meta.append(("near", (k, v, et.name), o))
+    # arguments that only *look* like an entry once formatted into text (the index is keyed by int
+    # versions and exact names): after the real modules have been imported by the lookups above, a
+    # version given as a string of digits, a name in another case or with blanks, a key given as text
+    # must still be unknown — never a module or class found some other way
+    for name in rng.sample(sorted(schema_name_map), 12):
+        vmap = schema_name_map[name]
+        v = rng.choice(sorted(vmap))
+        et = next(iter(vmap[v]))
+        key = next((k for k, nm_ in api_key_map.items() if nm_ == name), None)
+        probes = [(kidx.load_entity_module, (name, str(v), et)), (kidx.load_entity_schema, (name, str(v), et)),
+                  (kidx.load_entity_module, (name.upper(), v, et)), (kidx.load_entity_schema, (" " + name, v, et)),
+                  (kidx.load_entity_module, (name + " ", v, et)), (kidx.load_entity_module, (name, f"0{v}", et))]
+        if key is not None and et.name in ("request", "response"):
+            probes += [(kidx.load_payload_module, (key, str(v), et)), (kidx.load_payload_module, (str(key), v, et)),
+                       (kidx.load_request_schema, (key, str(v))), (kidx.load_response_schema, (str(key), v))]
+        for fn, args in probes:
+            o, r = outcome(fn, *args)
+            n += 1
+            if o == "ok":
+                fails.append({"what": f"{fn.__name__}{tuple(a if not hasattr(a, 'name') else a.name for a in args)!r} resolves "
+                                      f"although no such entry is in the index", "python": getattr(r, "__name__", str(r))})
+            elif o.startswith("err internal"):
+                fails.append({"what": f"{fn.__name__} on arguments of the wrong type fails with {o.split()[-1]} instead of the "
+                                      f"documented unknown-key / unknown-entity error", "args": [str(a) for a in args]})
     for _ in range(200):
         nm = "".join(rng.choice("abcdefghijklmnopqrstuvwxyz_") for _ in range(rng.randint(1, 12)))
         o, _ = outcome(kidx.load_entity_schema, nm, rng.randint(-3, 20), EntityType.request)
